@@ -285,7 +285,7 @@ func checkC04(p *Program, r *Result) {
 					kept = append(kept, f)
 				}
 			}
-			flat(pc)
+			flat(pushNegations(pc, false))
 			pos := p.pos(tg.Pos())
 			if len(kept) == 0 {
 				r.violated("C04.a", fname, "window predicate", pos, "no condition on the path to the yield relates the message log time to the window bounds; the time window is not applied")
